@@ -68,8 +68,8 @@ CHECKS = {
   text="Lean theorems (Props.C16): allLevels enumerates exactly the Grundy colourings of the conflict graph, without repetition "
        "(allLevels_exact, allLevels_nodup: permutations complete, greedy ↔ Grundy, product over checked parts); strings are in one-to-one "
        "correspondence with them (mkDB_injective_in_levels, allDB_exact, allDB_one_to_one_valid); FCFS and a dominating optimum are "
-       "members; knot-free ⇒ single round-bracket string. For every conflict graph, not only groups of ≤ 8 stems.",
-  note="The implementation's DFS component search and set-based de-duplication are covered by the set-level correspondence, not mirrored.",
+       "members; knot-free ⇒ single round-bracket string. For every conflict graph, not only groups of ≤ 8 stems. Implementation level (Props.C16Impl, model Model/AllDBImpl.lean mirroring all_dot_brackets statement by statement with the iteration order of every set it iterates as adversarial parameters σ (graph[v]), τ (unique[i]), ρ (frozensets)): for every σ, τ, ρ the DFS returns exactly the connected components of the conflict graph on the stems of positive degree (dfs_components_are_classes: partition, closed, connected; fuel proved sufficient), the available/next(filter) loop is the mex/greedy colouring along each permutation and never raises (greedy_loop_is_mex), and the returned list is a permutation of the specification model's list, duplicate-free (impl_same_as_spec, impl_mem_iff, impl_exact, impl_nodup), contains FCFS and a dominating optimum, and is [fcfs] for knot-free structures.",
+  note="The implementation's DFS component search and set-based de-duplication are covered by the set-level correspondence, not mirrored. The implementation's graph construction, DFS component search, greedy loop, product and de-duplication are mirrored in Model/AllDBImpl.lean and proved (Props.C16Impl) for every set-iteration order; the correspondence compares the real list with that model as a set, in length, per component and — with σ, τ measured on the running CPython — in ORDER. Still assumed: CPython iterates two int-keyed sets built by the same sequence of first insertions in the same order; itertools.permutations/product/combinations enumerate as documented.",
   technique="Lean 4 proof (permutation enumeration, greedy/Grundy equivalence, product decomposition) + set-level correspondence",
   ref="9/C16"),
  "C14": dict(
@@ -79,9 +79,9 @@ CHECKS = {
        "not depend on PYTHONHASHSEED; enumeration whose result is order-free by Lean theorems Props.C14: sorted_order_independent, "
        "allLevels_membership_order_free, dedupFirst_spec); (ii) every output named in the property is recomputed in fresh interpreters "
        "under 5 (quick) / 12 (thorough) hash seeds incl. 'random' and twice in-process and compared byte for byte. A functional Lean model "
-       "is deterministic by construction, so the theorems only cover order-independence of the modelled iteration sites.",
+       "is deterministic by construction, so the theorems only cover order-independence of the modelled iteration sites. For 'the list of all dot-brackets in order' the order dependence is a theorem about the algorithm as written (Props.C14Impl over Model/AllDBImpl.lean): the list as a collection is independent of every set-iteration order (alldb_collection_order_free); its order is a function of the iteration orders of the sets unique[i] alone — not of the int sets graph[v], not of the frozensets (alldb_list_function_of_unique_iteration) — and does depend on them (two-element witness alldb_list_depends_on_unique_iteration). Byte-identity across hash seeds therefore reduces to: CPython iterates sets of frozensets of int pairs with equal insertion history identically.",
   note="Nondeterminism inside SciPy, pandas, orjson, CBC or the OS is outside any model and is covered by the differential runs alone; "
-       "CPython's iteration order of int / int-tuple sets is assumed to be a function of contents and insertion history.",
+       "CPython's iteration order of int / int-tuple sets is assumed to be a function of contents and insertion history. The reduction above is proved; the CPython fact it reduces to is assumed and exercised by the hash-seed differential runs and, per structure, by the exact list-order comparison of corr/c16_impl.py.",
   technique="AST site inventory vs classified allow-list + Lean order-independence lemmas + hash-seed differential runs in fresh interpreters",
   ref="9/C14"),
  "C19": dict(
